@@ -8,9 +8,9 @@ WdP  == <<"P">>
 WdPs == <<"P", "s">>
 Rel(cs) == [abs |-> FALSE, comps |-> cs]
 Abs(cs) == [abs |-> TRUE, comps |-> cs]
-(* spellings of P/x, P/s/x, P/xx, P/y and look-alikes *)
+(* spellings of P/x, P/s/x, P/xx, P/y and look-alikes (u1/u2: the same text in NFC and NFD, X: another case) *)
 Pool == { Rel(<<"x">>), Rel(<<".", "x">>), Rel(<<"s", "..", "x">>), Rel(<<"..", "x">>), Rel(<<"s", "x">>),
-          Rel(<<"xx">>), Rel(<<"y">>), Rel(<<"..", "s", "x">>),
+          Rel(<<"xx">>), Rel(<<"y">>), Rel(<<"..", "s", "x">>), Rel(<<"u1">>), Rel(<<"u2">>), Rel(<<"X">>),
           Abs(<<"P", "x">>), Abs(<<"P", ".", "x">>), Abs(<<"P", "s", "..", "x">>), Abs(<<"P", "s", "x">>),
           Abs(<<"P", "s", ".", "..", "y">>) }
 Small(S) == {x \in SUBSET S : Cardinality(x) <= MaxIO}
